@@ -21,7 +21,21 @@ class Interposer:
             p = str(pathlib.Path(path).resolve())
         except Exception:
             return None
-        return self.roles.get(p)
+        r = self.roles.get(p)
+        if r is None and self.roles.get("__dir__") and \
+                os.path.dirname(p) == self.roles["__dir__"] and \
+                not p.endswith(".rtdc"):
+            # any other file the task writes next to its outputs counts as a
+            # temporary file (however it is named): of the output whose name
+            # it starts with, else of the first
+            base = os.path.basename(p)
+            j = 1
+            for jj, stem in self.roles.get("__stems__", []):
+                if base.startswith(stem):
+                    j = jj
+                    break
+            return ("TEMP", j)
+        return r
 
     def tick(self, op, path):
         r = self.role(path)
